@@ -94,6 +94,16 @@ func lemmaRecordRoundTrip(r *kvs.Record) kvs.Record { return db2rec(rec2db(r)) }
 //@   ensures r0 == k[nlead(k):]
 func lemmaKeyRoundTrip(k string) string { return key(rKey(k)) }
 
+// [C03] "the in-memory and the Redis backend ... the same as each other": distinct keys must stay distinct records.  This
+// does NOT hold for keys that differ only in leading slashes ("/a" and "a" are one Redis key, two in-memory keys): a
+// genuine divergence, confirmed against the real code and recorded in /verif/known_findings.json (open); the obligation is
+// kept so that the finding is re-established on every run and reported again should it ever be listed as fixed.
+//@ lemma func lemmaKeysKeptApart(a string, b string) (string, string)
+//@   props C03
+//@   timeout 3
+//@   ensures distinct: a != b ==> r0 != r1
+func lemmaKeysKeptApart(a, b string) (string, string) { return rKey(a), rKey(b) }
+
 //@ func rKeys(keys []string) []string
 //@   props C03
 //@   ensures len(r0) == len(keys) && forall(i, 0, len(keys), r0[i] == rkeyOf(keys[i]))
